@@ -285,6 +285,29 @@ def r3(chk, prog):
               'message has none', f.loc(glob[0]))
     same_name = all(mentions_field(call_args(c)[0], 'mConstant') for c in own + glob)
     chk.check(same_name, 'R3', f.name, 'both lookups use the field\'s attribute name', f.loc())
+    # the attributes of the message itself: the lookup follows the chain of enclosing attribute objects
+    # (LogAttributes::mpOuter) - the call must resolve to the implementation that knows the chain (a statically
+    # bound call of the plain container's lookup skips the attributes defined in a parent object)
+    mv = prog.one('celma::log::detail::LogMsg', 'getAttributeValue')
+    looks = [c for c in mv.calls() if (c.get('callee') or '').endswith('::getAttribute')]
+    chk.require(looks, 'LogMsg::getAttributeValue: attribute lookup not found')
+    for c in looks:
+        targets = [prog.by_key[k][0] for k in prog.call_targets(c) if k in prog.by_key]
+        follows = any(any(x.get('k') == 'MemberExpr' and x.get('ref', {}).get('name') == 'mpOuter' for x in t.walk())
+                      for t in targets if t.body is not None)
+        chk.check(follows, 'R3', mv.name, 'the lookup of a message attribute follows the chain of enclosing attribute '
+                  'objects (own attributes first, then the parent\'s)', mv.loc(c),
+                  'the call binds to %s, which does not consult the parent object' % c.get('callee'))
+    la = prog.one('celma::log::LogAttributes', 'getAttribute')
+    own_c = [c for c in la.calls() if (c.get('callee') or '').endswith('LogAttributesContainer::getAttribute')]
+    outer_c = [c for c in la.calls() if (c.get('callee') or '').endswith('LogAttributes::getAttribute')]
+    lcfg = la.cfg
+    guarded_outer = bool(own_c) and bool(outer_c) and all(
+        any(lcfg.node_dominates(o, q) for o in own_c) and any(
+            cond is not None and mentions_call(cond, 'empty') and lcfg.guarded_by_edge(lcfg.position(q), bid, 0)
+            for bid, cond in lcfg.cond_blocks()) for q in outer_c)
+    chk.check(guarded_outer, 'R3', la.name, 'an attribute object asks its parent only when it has no value of its own',
+              la.loc())
     g = prog.one('celma::log::detail::LogAttributesContainer', 'getAttribute')
     rev = any('rbegin' in c.get('callee', '') for c in g.calls()) and any('rend' in c.get('callee', '')
                                                                           for c in g.calls())
